@@ -41,6 +41,7 @@ from engine import Op, set_mode
 gen_durregex.register()     # translate.main() regenerates Gen/DurRegex.lean on every check run
 
 PROP = "C10"
+FOREIGN_FIRST = True
 LEAN_MODULES = ["IsoDT.Props.C10", "IsoDT.Props.C10b"]
 REQUIRED_THEOREMS = ["IsoDT.Props.C10." + n for n in (
     "C10_roundtrip", "C10_designators", "C10_designators_weeks", "C10_alt", "C10_alt_canonical",
@@ -1147,6 +1148,8 @@ class DFParse(Op):
 
 
 def ops():
+    import common
+    common.foreign_configurations()
     import durtextqops
     return [DStr(), DRoundTrip(), DRoundTripEq(), DParse(), DAlt(), DRegex(), F64(), DFloat(), DFParse(),
             durtextqops.DurTextQOp()]
